@@ -261,3 +261,229 @@ def drv_bilinear(doc, args, inst):
 
 
 DRIVERS.update({'sum': drv_sum, 'norm': drv_norm, 'dot': drv_dot, 'bilinear': drv_bilinear})
+
+
+def drv_cat(doc, args, inst):
+    msgs = []
+    for seed in range(2):
+        ts = [build(inst, k, 10 + seed + 7 * j) for j, k in enumerate(args['tensors'])]
+        snaps = [snapshot(t) for t in ts]
+        dim = args['dim']
+        try:
+            ref = tn.cat([t.full() for t in ts], dim)
+        except Exception as e:
+            ref = None
+        try:
+            r = torchtt.cat(tuple(ts), dim)
+        except Exception as e:
+            if ref is None:
+                return []
+            return ['cat raises %s: %s for %s dim=%d' % (type(e).__name__, str(e)[:150], [descr(t) for t in ts], dim)]
+        if ref is None:
+            return ['cat returned %s for operands with no dense counterpart: %s dim=%d' % (descr(r), [descr(t) for t in ts], dim)]
+        we = wf_errors(r)
+        if we:
+            msgs.append('result not well formed: %s' % we)
+        rf = r.full()
+        if list(rf.shape) != list(ref.shape):
+            msgs.append('cat shape %s vs dense %s' % (list(rf.shape), list(ref.shape)))
+        elif not relerr(rf, ref) < 1e-9:
+            msgs.append('cat value differs (rel.err %.2e) for %s dim=%d' % (relerr(rf, ref), [descr(t) for t in ts], dim))
+        if not all(unchanged(t, s) for t, s in zip(ts, snaps)):
+            msgs.append('operand modified by cat')
+        if msgs:
+            break
+    return msgs
+
+
+def drv_pad(doc, args, inst):
+    msgs = []
+    padding = [[max(0, min(3, int(a))), max(0, min(3, int(b)))] for a, b in inst['padding']]
+    try:
+        value = float(inst.get('value', 0.0))
+    except Exception:
+        value = 3.0
+    if value == 0.0 and 'outside' in doc.get('obligation', ''):
+        value = 3.0
+    for seed in range(2):
+        x = build(inst, args['x'], 10 + seed)
+        sx = snapshot(x)
+        d = len(x.N)
+        k = len(padding)
+        try:
+            r = torchtt.pad(x, tuple(tuple(p) for p in padding), value)
+        except Exception as e:
+            return ['pad raises %s: %s for %s padding=%s' % (type(e).__name__, str(e)[:150], descr(x), padding)]
+        f = x.full()
+        if not x.is_ttm:
+            flat = []
+            for p in reversed(padding):
+                flat += p
+            ref = tn.nn.functional.pad(f, flat, value=value)
+        else:
+            Mn = list(x.M)
+            Nn = list(x.N)
+            for j, p in enumerate(padding):
+                kk = d - k + j
+                Mn[kk] += p[0] + p[1]
+                Nn[kk] += p[0] + p[1]
+            ref = tn.zeros(Mn + Nn, dtype=f.dtype)
+            sl = []
+            for kk in range(d):
+                j = kk - (d - k)
+                lo = padding[j][0] if j >= 0 else 0
+                sl.append(slice(lo, lo + x.M[kk]))
+            for kk in range(d):
+                j = kk - (d - k)
+                lo = padding[j][0] if j >= 0 else 0
+                sl.append(slice(lo, lo + x.N[kk]))
+            ref[tuple(sl)] = f
+            if k == d:
+                import itertools
+                for which in (0, 1):
+                    rngs = []
+                    for j, p in enumerate(padding):
+                        rngs.append(range(p[0]) if which == 0 else range(p[0] + x.M[j], Mn[j]))
+                    rngs_n = []
+                    for j, p in enumerate(padding):
+                        rngs_n.append(range(p[0]) if which == 0 else range(p[0] + x.N[j], Nn[j]))
+                    for mi in itertools.product(*rngs):
+                        # identity: same offset in the row and column corner
+                        ni = tuple((m if which == 0 else m - (padding[j][0] + x.M[j]) + (padding[j][0] + x.N[j])) for j, m in enumerate(mi))
+                        if all(n in rn for n, rn in zip(ni, rngs_n)):
+                            ref[mi + ni] = value
+        we = wf_errors(r)
+        if we:
+            msgs.append('result not well formed: %s' % we)
+        rf = r.full()
+        if list(rf.shape) != list(ref.shape):
+            msgs.append('pad shape %s vs dense %s' % (list(rf.shape), list(ref.shape)))
+        elif not relerr(rf, ref) < 1e-9:
+            msgs.append('pad(%s, %s, value=%s) differs from dense constant padding: max abs err %.3g' % (descr(x), padding, value, float((rf - ref).abs().max())))
+        if not unchanged(x, sx):
+            msgs.append('operand modified by pad')
+        if msgs:
+            break
+    return msgs
+
+
+def drv_mprod(doc, args, inst):
+    msgs = []
+    for seed in range(2):
+        x = build(inst, args['x'], 10 + seed)
+        sx = snapshot(x)
+        modes = args['modes']
+        L = [clampi(l) for l in inst['L']]
+        Fs = [tn.randn([L[j], x.N[m]], dtype=tn.float64) for j, m in enumerate(modes)]
+        try:
+            r = x.mprod(Fs[0], modes[0]) if args['form'] == 'int' else x.mprod(Fs, list(modes))
+        except Exception as e:
+            return ['mprod raises %s: %s' % (type(e).__name__, str(e)[:150])]
+        ref = x.full()
+        for F, m in zip(Fs, modes):
+            ref = tn.movedim(tn.tensordot(F, ref, dims=([1], [m])), 0, m)
+        rf = r.full()
+        if list(rf.shape) != list(ref.shape):
+            msgs.append('mprod shape %s vs dense %s' % (list(rf.shape), list(ref.shape)))
+        elif not relerr(rf, ref) < 1e-9:
+            msgs.append('mprod value differs (rel.err %.2e) x=%s modes=%s L=%s' % (relerr(rf, ref), descr(x), modes, L))
+        if not unchanged(x, sx):
+            msgs.append('operand modified by mprod')
+        if msgs:
+            break
+    return msgs
+
+
+DRIVERS.update({'cat': drv_cat, 'pad': drv_pad, 'mprod': drv_mprod})
+
+
+def _conc_index(desc, N):
+    """rebuild a python index from the concretised description, clamped to the actual mode sizes"""
+    out = []
+    k = 0
+    n_cons = sum(1 for e in desc if e is not None and e != 'Ellipsis')
+    for e in desc:
+        if e is None:
+            out.append(None)
+        elif e == 'Ellipsis':
+            out.append(Ellipsis)
+            k += len(N) - n_cons
+        elif isinstance(e, dict):
+            a, b, s = e['slice']
+            n = N[k % len(N)]
+            if a is None and b is None:
+                out.append(slice(None, None, s))
+            else:
+                a = max(0, min(int(a), n - 1))
+                b = max(a + 1, min(int(b), n))
+                out.append(slice(a, b, s))
+            k += 1
+        else:
+            n = N[k % len(N)]
+            i = int(e)
+            i = max(-n, min(i, n - 1))
+            out.append(i)
+            k += 1
+    return out
+
+
+def drv_getitem(doc, args, inst):
+    msgs = []
+    for seed in range(2):
+        x = build(inst, args['x'], 10 + seed)
+        sx = snapshot(x)
+        desc = inst['index']
+        if x.is_ttm:
+            half = len(desc) // 2
+            index = _conc_index(desc[:half], list(x.M)) + _conc_index(desc[half:], list(x.N))
+        else:
+            index = _conc_index(desc, list(x.N))
+        idx = index[0] if inst.get('bare') else tuple(index)
+        f = x.full()
+        try:
+            ref = f[idx]
+        except Exception as e:
+            return ['dense indexing itself fails: %r' % e]
+        try:
+            r = x[idx]
+        except Exception as e:
+            return ['x[%s] raises %s: %s for %s (dense shape %s)' % (idx, type(e).__name__, str(e)[:120], descr(x), list(ref.shape))]
+        rf = r.full() if isinstance(r, TT) else r
+        if isinstance(r, TT):
+            we = wf_errors(r)
+            if we:
+                msgs.append('result not well formed: %s' % we)
+        if list(rf.shape) != list(ref.shape):
+            msgs.append('x[%s] has shape %s, dense indexing gives %s (x=%s)' % (idx, list(rf.shape), list(ref.shape), descr(x)))
+        elif not relerr(rf, ref) < 1e-9:
+            msgs.append('x[%s] values differ from dense (rel.err %.2e) (x=%s)' % (idx, relerr(rf, ref), descr(x)))
+        if not unchanged(x, sx):
+            msgs.append('operand modified by indexing')
+        if msgs:
+            break
+    return msgs
+
+
+def drv_apply_mask(doc, args, inst):
+    msgs = []
+    for seed in range(2):
+        x = build(inst, args['x'], 10 + seed)
+        M = clampi(inst.get('Mrows', 3), 1, 5)
+        g = tn.Generator().manual_seed(seed)
+        ind = tn.stack([tn.randint(0, n, (M,), generator=g) for n in x.N], 1)
+        try:
+            r = x.apply_mask(ind)
+        except Exception as e:
+            return ['apply_mask raises %s: %s for %s M=%d' % (type(e).__name__, str(e)[:150], descr(x), M)]
+        f = x.full()
+        ref = tn.stack([f[tuple(int(i) for i in row)] for row in ind])
+        if list(r.shape) != list(ref.shape):
+            msgs.append('apply_mask shape %s vs %s (M=%d rows)' % (list(r.shape), list(ref.shape), M))
+        elif not relerr(r, ref) < 1e-9:
+            msgs.append('apply_mask values differ (rel.err %.2e)' % relerr(r, ref))
+        if msgs:
+            break
+    return msgs
+
+
+DRIVERS.update({'getitem': drv_getitem, 'apply_mask': drv_apply_mask})
